@@ -41,10 +41,10 @@ FIXED = [
 
 def family(tier):
     if tier == "quick":
-        return {"maxn": 4, "rhos": [(1, 4), (1, 2), (3, 4)], "all_labelled": False,
-                "rates": [0.0, 0.5, 2.0], "per_graph": 1, "fixed_rhos": [(1, 4)]}
-    return {"maxn": 4, "rhos": [(1, 4), (1, 2), (3, 4), (1, 3), (1, 8)], "all_labelled": True,
-            "rates": [0.0, 0.5, 1.0, 2.0], "per_graph": 3, "fixed_rhos": [(1, 4), (1, 2), (3, 4)]}
+        return {"maxn": 4, "rhos": [(0, 1), (1, 4), (1, 2), (3, 4)], "all_labelled": False,
+                "rates": [0.0, 0.5, 2.0], "per_graph": 1, "fixed_rhos": [(0, 1), (1, 4)]}
+    return {"maxn": 4, "rhos": [(0, 1), (1, 4), (1, 2), (3, 4), (1, 3), (1, 8)], "all_labelled": True,
+            "rates": [0.0, 0.5, 1.0, 2.0], "per_graph": 3, "fixed_rhos": [(0, 1), (1, 4), (1, 2), (3, 4)]}
 
 
 GRIDS = [(0, 2, 5), (1, 3, 4)]
